@@ -1,6 +1,7 @@
 (* C03 — scheduling preserves the iteration space.
    Only theorem statements closed by `exact`, each followed by Print Assumptions. *)
-From Snax Require Import Base.Prelude Model.C03Schedule Proofs.C03ScheduleProofs.
+From Snax Require Import Base.Prelude Model.C03Schedule Model.C03Yields Model.C16Matcher
+  Proofs.C03ScheduleProofs Proofs.C03BacktrackProofs.
 From Coq Require Import Permutation.
 
 (* image s = the list, over all points x of the iteration box (lexicographic), of the tuple
@@ -42,6 +43,44 @@ Proof.
   split; [eapply add_dim_image; eassumption | apply wf_schedb_ok; eapply add_dim_wf; eassumption].
 Qed.
 Print Assumptions C03_add_dim_image.
+
+(* The backtracking search: EVERY schedule yielded (not only the first), for every template
+   (bounded / unbounded dims), every matcher, every list of extra checks, every starting level k and
+   any fuel, has the same multiset of operand-index tuples as the input schedule. *)
+Theorem C03_backtrack_image :
+  forall (matcher : tmpl -> sched -> bool) (checks : list (tmpl -> sched -> bool)) (T : tmpl)
+         (fuel : nat) (s : sched) (k : nat) (r : sched),
+    wf_schedb s = true -> In r (fst (bt matcher checks fuel T s k)) ->
+    Permutation (image r) (image s) /\ wf_schedb r = true.
+Proof.
+  intros m c T f s k r H Hin. apply wf_schedb_ok in H.
+  destruct (backtrack_image m c T f s k r H Hin) as [HP Hw]. split; [exact HP | apply wf_schedb_ok; exact Hw].
+Qed.
+Print Assumptions C03_backtrack_image.
+
+(* ... in particular the result of scheduler(template, schedule, checks, idx). *)
+Theorem C03_scheduler_image :
+  forall matcher checks T s idx r, wf_schedb s = true -> scheduler matcher checks T s idx = Some r ->
+    Permutation (image r) (image s).
+Proof. intros m c T s idx r H Hs. apply wf_schedb_ok in H. exact (scheduler_image m c T s idx r H Hs). Qed.
+Print Assumptions C03_scheduler_image.
+
+(* The guard of the search establishes the divisibility precondition of tile_dim. *)
+Theorem C03_backtrack_tiles_only_divisible :
+  forall matcher checks T k n s1 t sb, c_ndims s1 = Some n -> accepted matcher checks T k s1 (Some t) sb ->
+    sb mod t = 0 -> forall bd, nth_error (sbounds s1) (n - k) = Some bd -> bd mod t = 0.
+Proof. exact yields_tiles_only_divisible. Qed.
+Print Assumptions C03_backtrack_tiles_only_divisible.
+
+(* non-vacuity of the backtracking theorem: test_pure_output_stationary_scheduler's input yields two
+   schedules with the real matcher, both different from the input *)
+Example C03_backtrack_nonvacuous :
+  let T : tmpl := [mkPat [Some 4] [[1]] [0]] in
+  let s : sched := [mkPat [8; 8] [[0]; [1]] [0]] in
+  wf_schedb s = true /\ length (fst (backtrack matches [] T s)) = 2%nat /\
+  forallb (fun r => negb (sched_eqb r s)) (fst (backtrack matches [] T s)) = true.
+Proof. vm_compute. auto. Qed.
+Print Assumptions C03_backtrack_nonvacuous.
 
 (* non-vacuity: a 3-operand matmul-like schedule on which every operation succeeds and changes something *)
 Example C03_nonvacuous :
